@@ -209,9 +209,41 @@ func popularCases(c *ctx) []tableCase {
 	return out
 }
 
+// object ids that differ in their LAST byte only (the shortest distinguishing prefix is the whole
+// id: 32 bytes with SHA-256 do not fit the 5-bit field of the footer, so no object index may be
+// written), refs to the second id in blocks that hold no ref to the first
+func longPrefixCases(c *ctx) []tableCase {
+	var out []tableCase
+	for _, sha := range []bool{false, true} {
+		var t tableCase
+		t.cfg = tcfg{BlockSize: 256, SHA256: sha, Restart: 1 + c.rng.Intn(4)}
+		t.min, t.max = 1, 1
+		hs := t.cfg.hashSize()
+		a := make([]byte, hs)
+		c.rng.Read(a)
+		b := append([]byte{}, a...)
+		a[hs-1], b[hs-1] = 1, 2
+		for i := 0; i < 40; i++ {
+			r := reftable.RefRecord{RefName: fmt.Sprintf("refs/heads/branch%02d", i), UpdateIndex: 1}
+			h := make([]byte, hs)
+			c.rng.Read(h)
+			switch {
+			case i == 0 || i >= 37:
+				h = a
+			case i == 20 || i == 29:
+				h = b
+			}
+			r.Value = h
+			t.refs = append(t.refs, r)
+		}
+		out = append(out, t)
+	}
+	return out
+}
+
 func runTables(c *ctx, which string) error {
 	if which == "c01" || which == "c14" || which == "c11" {
-		for _, t := range popularCases(c) {
+		for _, t := range append(popularCases(c), longPrefixCases(c)...) {
 			t := t
 			qs := []string{"sr:"}
 			seen := map[string]bool{}
